@@ -10,6 +10,9 @@ for d in sorted(glob.glob(os.path.join(V, "seeded", "*"))):
     if only and sid not in only:
         continue
     meta = json.load(open(os.path.join(d, "meta.json")))
+    if meta.get("judged_not_a_violation"):
+        print("%s: skipped (judged not to violate the property as stated; see meta.json)" % sid)
+        continue
     props = meta.get("detected_by") or [meta.get("breaks")]
     st = subprocess.run("git -C /repo status --short", shell=True, capture_output=True, text=True).stdout.strip()
     if st:
